@@ -747,8 +747,7 @@ inline constexpr void Conversion<Unit::Energy, Unit::Energy::BritishThermalUnit>
 }
 
 template <typename NumericType>
-inline const std::map<Unit::Energy,
-                      std::function<void(NumericType* values, const std::size_t size)>>
+inline const ConversionTable<Unit::Energy, NumericType>
     MapOfConversionsFromStandard<Unit::Energy, NumericType>{
       {Unit::Energy::Joule,
        Conversions<Unit::Energy, Unit::Energy::Joule>::FromStandard<NumericType>             },
@@ -817,8 +816,7 @@ inline const std::map<Unit::Energy,
 };
 
 template <typename NumericType>
-inline const std::map<Unit::Energy,
-                      std::function<void(NumericType* const values, const std::size_t size)>>
+inline const ConversionTable<Unit::Energy, NumericType>
     MapOfConversionsToStandard<Unit::Energy, NumericType>{
       {Unit::Energy::Joule,
        Conversions<Unit::Energy, Unit::Energy::Joule>::ToStandard<NumericType>             },
